@@ -84,20 +84,20 @@ def run(ctx):
     ]
 
     # ------------------------------------------------------------------ model checking
-    c1 = {"MaxLen": 2 if q else 3, "MaxNc": 1 if q else 2, "WellFormedOnly": "TRUE", "Scan": 1200 if q else 200000}
+    c1 = {"MaxLen": 2 if q else 3, "MaxNc": 1, "WellFormedOnly": "TRUE", "Scan": 1200 if q else 200000}
     ctx.constants["MC_DeepResults"] = c1
     ctx.mc("dir/MCDeepResults", cfg_of(c1, XR + XH), name="MC DeepResults (records; histogram)", coverage=not q, timeout=3000)
     c3 = {"Types": '{"dir", "file", "lit", "unk", "mfile"}', "MaxObjs": 3 if q else 4, "MaxLinks": 3 if q else 4, "MaxNames": 2}
     ctx.constants["MC_DeepStats"] = c3
-    ctx.mc("dir/MCDeepStats", cfg_of(c3, XS), name="MC DeepStats (graphs)", coverage=not q, timeout=3000)
+    ctx.mc("dir/MCDeepStats", cfg_of(c3, XS), name="MC DeepStats (graphs)", coverage=False, timeout=3000)
     if not q:
-        c1b = {"MaxLen": 2, "MaxNc": 1, "WellFormedOnly": "FALSE", "Scan": 10}
+        c1b = {"MaxLen": 2, "MaxNc": 2, "WellFormedOnly": "FALSE", "Scan": 10}
         ctx.constants["MC_DeepResults_all_records"] = c1b
         ctx.mc("dir/MCDeepResults", cfg_of(c1b, XR + XH), name="MC DeepResults (pairs of arbitrary records)", coverage=False, timeout=3000)
 
     # ------------------------------------------------------------------ GEN: histogram cases, replayed on a real DeepStats
-    cases, r = ctx.gen("dir/GenDeepHistogram", "SPECIFICATION Spec\nINVARIANT TableOK\nCHECK_DEADLOCK FALSE\n", coverage=False)
-    res = ctx.impl("harness/deepres_driver.py", ["--agg", 120 if q else 3000, "--stats", 14 if q else 300, "--check", 18 if q else 400],
+    cases, r = ctx.gen("dir/GenDeepHistogram", "SPECIFICATION Spec\nINVARIANT TableOK\nCHECK_DEADLOCK FALSE\n", coverage=False, workers=1)
+    res = ctx.impl("harness/deepres_driver.py", ["--agg", 120 if q else 1500, "--stats", 14 if q else 200, "--check", 18 if q else 250],
                    input_obj={"cases": cases}, timeout=20000)
     if len(res["hist"]) != len(cases):
         raise core.MachineryError("driver answered %d of %d histogram cases" % (len(res["hist"]), len(cases)))
